@@ -179,6 +179,8 @@ Ev(prog, e, st) ==
       \* a float literal denotes the nearest value of its type (ties to even)
       [] e.k = "flit" -> V(st, RoundTo(0, e.m, e.e, MantBits(e.ty)))
       [] e.k = "var" -> V(st, Lookup(st.env, e.n))
+      \* a constant registered by the host: the registry (path -> value) is part of the program
+      [] e.k = "gconst" -> V(st, prog.consts[e.p])
       [] e.k = "un" ->
             LET r == Ev(prog, e.e, st) IN
             IF r.k # "v" THEN r ELSE V(r.st, UnOp(e.op, e.ty, r.v))
